@@ -373,6 +373,24 @@ def run_family_chunk(job):
     return res
 
 
+def run_c11_family_chunk(job):
+    from tucan.io import graph_from_molfile_text
+
+    tier, items = job
+    res = {"n": 0, "exec": 0, "vios": [], "respellings": 0, "nontrivial": 0}
+    for name, cols, bonds in items:
+        n = len(cols)
+        s = tucan_of(graph_from_molfile_text(G.render_v3000(n, cols, bonds)))
+        res["n"] += 1
+        res["exec"] += 1
+        cnt = {"respellings": 0, "nontrivial": 0, "exec": 0}
+        for key, msg, s2 in check_c11(s, "quick", cnt):
+            res["vios"].append((key, {"kind": "respelling", "n": n, "canonical": s, "respelling": s2, "summary": f"{name}: {msg}"}))
+        for k in ("respellings", "nontrivial", "exec"):
+            res[k] += cnt[k]
+    return res
+
+
 def zero_attribute_texts():
     """C05: molecules read from texts carrying explicit zero attributes (V3000 and V2000)."""
     out = []
@@ -429,6 +447,16 @@ def run(prop: str, tier: str) -> int:
             for s in res["samples"][:1]:
                 rep.sample(s, cap=12)
         rep.add(family_molecules=fam)
+    if prop == "C11":
+        items = [it for it in family_molecules("C11", tier)
+                 if it[0].startswith(("chain C10 labelled", "chain C17 labelled"))
+                 or it[0] in ("labelled chain C11", "labelled star C10", "alkane-like comb 10")]
+        chunks = [items[i::48] for i in range(48)]
+        for _, res in pmap(run_c11_family_chunk, [(tier, c) for c in chunks if c]):
+            rep.add(states=res["n"], transitions=res["respellings"], traces_validated_against_impl=res["exec"],
+                    distinct_nontrivial=res["nontrivial"], respellings=res["respellings"], family_strings=res["n"])
+            for key, case in res["vios"]:
+                rep.violation(key, case)
     if prop == "C03":
         from . import zoo
 
